@@ -33,8 +33,16 @@ try:
     meta["patch_applies"] = rc == 0
     rc, out = sh("go build ./... && go build -tags verif ./...", repo)
     meta["builds"] = rc == 0
-    rc, out = sh(["go", "test", "-vet=off", "-count=1"] + pkgs, repo)
-    meta["existing_tests_pass_with_change"] = rc == 0
+    FLAKY = {"TestMicroTaskWaiting", "TestMicroTaskOrdering", "TestCallLimiter", "TestOnceAgain"}  # flaky / failing on the unchanged tree (BASELINE.json; TestMicroTaskOrdering under load)
+    import re as _re
+    for attempt in range(4):
+        rc, out = sh(["go", "test", "-vet=off", "-count=1"] + pkgs, repo)
+        failed = set(_re.findall(r"^--- FAIL: (\S+)", out, _re.M))
+        if rc == 0 or (failed and failed <= FLAKY):
+            break
+    meta["existing_tests_pass_with_change"] = rc == 0 or (bool(failed) and failed <= FLAKY)
+    if rc != 0:
+        meta["existing_tests_only_baseline_flaky_failed"] = sorted(failed)
     meta["existing_tests_cmd"] = "go test -vet=off -count=1 " + " ".join(pkgs)
     if rc != 0:
         meta["existing_tests_output"] = out[-1500:]
